@@ -222,6 +222,8 @@ pub struct Evidence {
     pub extra: Vec<(String, J)>,
     /// the run is inconclusive unless at least this many distinct non-trivial cases were seen
     pub min_distinct: u64,
+    /// observation counters that must reach a minimum, or the monitor never saw its mechanism
+    pub min_counters: Vec<(&'static str, u64)>,
 }
 
 /// Writes evidence, prints verdict lines, returns the process exit code.
@@ -272,6 +274,14 @@ pub fn finish(ctx: &Ctx, rep: Report, ev: Evidence) -> i32 {
     }
     if rep.evaluations == 0 {
         inconclusive.push("no evaluations".into());
+    }
+    if ctx.replay.is_none() && new_violations == 0 {
+        for (k, min) in &ev.min_counters {
+            let got = rep.counters.get(*k).cloned().unwrap_or(0);
+            if got < *min {
+                inconclusive.push(format!("monitored mechanism hardly exercised: {} = {} (minimum {})", k, got, min));
+            }
+        }
     }
 
     let mut cov = J::obj()
